@@ -331,7 +331,8 @@ partial def loop (h : IO.FS.Stream) (s : DS) : IO Unit := do
     | none => IO.println "bad-op"; loop h { s with ph := .none }
   | "C" :: "body" :: rest =>
     match field rest "maxbody", field rest "rl", (field rest "hp").bind mkHandler with
-    | some mb, some rl, some hd =>
+    | some mb, some rl, some hd0 =>
+      let hd := { hd0 with rejected := field rest "rej" == some "1" }
       let hg : Http.Cfg := { isClient := false, maxBody := mb.toNat!, urlOk := fun _ => true, protoOk := fun _ => true }
       IO.println "ok"
       loop h { s with ph := .none, c := none, w := none, b := some { hg, hp := Http.init hg, maxBody := mb.toNat!, rl := rl.toNat!, handler := hd } }
